@@ -61,7 +61,17 @@ class Fn:
             return e.id
         if isinstance(e, ast.BinOp) and isinstance(e.op, ast.BitOr):
             return "(Z.lor %s %s)" % (self.z(e.left), self.z(e.right))
+        if isinstance(e, ast.BinOp) and isinstance(e.op, ast.BitAnd):
+            return "(Z.land %s %s)" % (self.z(e.left), self.z(e.right))
+        if isinstance(e, ast.UnaryOp) and isinstance(e.op, ast.Invert):
+            return "(Z.lnot %s)" % self.z(e.operand)
         raise Unsupported("integer expression at line %d" % e.lineno)
+
+    def is_flags(self, e):
+        """an expression over the flag-word locals (|=) and integer literals with | & ~"""
+        if isinstance(e, ast.Name): return e.id in self.zvars
+        if isinstance(e, ast.BinOp) and isinstance(e.op, (ast.BitOr, ast.BitAnd)): return (self.is_flags(e.left) or self.is_flags(e.right)) and all(self.is_flags(x) or (isinstance(x, ast.Constant) and isinstance(x.value, int)) or (isinstance(x, ast.UnaryOp) and isinstance(x.op, ast.Invert)) for x in (e.left, e.right))
+        return False
 
     def expr(self, e):
         if isinstance(e, ast.Name):
@@ -85,6 +95,10 @@ class Fn:
             if type(e.op) not in ops:
                 raise Unsupported("binary operator %s at line %d" % (type(e.op).__name__, e.lineno))
             return "(%s %s %s)" % (self.expr(e.left), ops[type(e.op)], self.expr(e.right))
+        if isinstance(e, ast.Compare) and len(e.ops) == 1 and isinstance(e.ops[0], (ast.Eq, ast.NotEq)) and self.is_flags(e.left) \
+                and isinstance(e.comparators[0], ast.Constant) and isinstance(e.comparators[0].value, int):
+            t = "(Z.eqb %s %s)" % (self.z(e.left), self.z(e.comparators[0]))       # a test on a flag word
+            return t if isinstance(e.ops[0], ast.Eq) else "(negb %s)" % t
         if isinstance(e, ast.Compare):
             parts, left = [], e.left
             for op, right in zip(e.ops, e.comparators):
@@ -378,6 +392,7 @@ class FnZQ(Fn):
         if isinstance(e, ast.Constant): return isinstance(e.value, int) and not isinstance(e.value, bool)
         if isinstance(e, ast.UnaryOp) and isinstance(e.op, ast.USub): return self.is_z(e.operand)
         if isinstance(e, ast.BinOp) and isinstance(e.op, (ast.Add, ast.Sub, ast.Mult)): return self.is_z(e.left) and self.is_z(e.right)
+        if isinstance(e, ast.IfExp): return self.is_z(e.body) and self.is_z(e.orelse)
         if isinstance(e, ast.Call):
             f = self.fname(e)
             if f in ("int", "round", "math.ceil", "math.floor", "mpmath.floor", "mpmath.ceil"): return True
@@ -395,6 +410,7 @@ class FnZQ(Fn):
         if isinstance(e, ast.Name) and e.id in self.zenv: return e.id
         if isinstance(e, ast.Constant) and self.is_z(e): return "%d" % e.value if e.value >= 0 else "(%d)" % e.value
         if isinstance(e, ast.UnaryOp) and isinstance(e.op, ast.USub): return "(- %s)" % self.ez(e.operand)
+        if isinstance(e, ast.IfExp) and self.is_z(e): return "(if %s then %s else %s)" % (self.expr(e.test), self.ez(e.body), self.ez(e.orelse))
         if isinstance(e, ast.BinOp) and self.is_z(e):
             return "(%s %s %s)" % (self.ez(e.left), {ast.Add: "+", ast.Sub: "-", ast.Mult: "*"}[type(e.op)], self.ez(e.right))
         if isinstance(e, ast.Call) and not e.keywords:
@@ -474,7 +490,7 @@ class FnZQ(Fn):
             return "(" + ", ".join(self.expr(x) for x in e.elts) + ")"
         if isinstance(e, ast.IfExp):
             return "(if %s then %s else %s)" % (self.expr(e.test), self.expr(e.body), self.expr(e.orelse))
-        if isinstance(e, ast.Name) and e.id in getattr(self, "tenv", set()):
+        if isinstance(e, ast.Name) and (e.id in getattr(self, "tenv", set()) or e.id in getattr(self, "benv", set())):
             return e.id
         return self.ez(e) if self.is_z(e) else "(%s)%%Q" % self.eq(e)
 
@@ -482,6 +498,10 @@ class FnZQ(Fn):
         if isinstance(e, ast.Tuple):               # a local that holds the result pair
             term = self.expr(e)
             self.tenv = getattr(self, "tenv", set()) | {target}; self.zenv.discard(target); self.qenv.discard(target)
+            return term
+        if isinstance(e, (ast.Compare, ast.BoolOp)) or (isinstance(e, ast.UnaryOp) and isinstance(e.op, ast.Not)) or (isinstance(e, ast.Constant) and isinstance(e.value, bool)):
+            term = self.expr(e)                    # a local that holds a truth value
+            self.benv = getattr(self, "benv", set()) | {target}; self.zenv.discard(target); self.qenv.discard(target)
             return term
         if self.is_z(e):
             term = self.ez(e)                      # translated in the environment before the binding
@@ -500,6 +520,10 @@ def _const_value(e, consts):
     if isinstance(e, ast.Name) and e.id in consts: return consts[e.id]
     if isinstance(e, ast.UnaryOp) and isinstance(e.op, ast.USub):
         v = _const_value(e.operand, consts); return None if v is None else -v
+    if isinstance(e, ast.BinOp) and isinstance(e.op, (ast.BitOr, ast.BitAnd, ast.LShift)):
+        a, b = _const_value(e.left, consts), _const_value(e.right, consts)
+        if not (isinstance(a, int) and isinstance(b, int)) or (isinstance(e.op, ast.LShift) and not 0 <= b <= 64): return None
+        return a | b if isinstance(e.op, ast.BitOr) else a & b if isinstance(e.op, ast.BitAnd) else a << b
     if isinstance(e, ast.BinOp) and isinstance(e.op, (ast.Add, ast.Sub, ast.Mult, ast.Pow)):
         a, b = _const_value(e.left, consts), _const_value(e.right, consts)
         if a is None or b is None: return None
@@ -514,6 +538,16 @@ class _Inline(ast.NodeTransformer):
     def visit_Name(self, n):
         if isinstance(n.ctx, ast.Load) and n.id in self.consts and n.id not in self.local:
             return ast.copy_location(ast.Constant(value=self.consts[n.id]), n)
+        return n
+
+class _SplitTuples(ast.NodeTransformer):
+    """a, b = x, y  ->  a = x; b = y   when no target occurs in a value (the two are then the same assignment)"""
+    def visit_Assign(self, n):
+        if len(n.targets) == 1 and isinstance(n.targets[0], ast.Tuple) and isinstance(n.value, ast.Tuple) and len(n.targets[0].elts) == len(n.value.elts) \
+                and all(isinstance(t, ast.Name) for t in n.targets[0].elts):
+            names = {t.id for t in n.targets[0].elts}
+            if len(names) == len(n.targets[0].elts) and not any(isinstance(x, ast.Name) and x.id in names for v in n.value.elts for x in ast.walk(v)):
+                return [ast.copy_location(ast.Assign(targets=[ast.Name(id=t.id, ctx=ast.Store())], value=v), n) for t, v in zip(n.targets[0].elts, n.value.elts)]
         return n
 
 def translate(path, names, mode="q"):
@@ -542,7 +576,7 @@ def translate(path, names, mode="q"):
     for name in order:
         node = found[name]
         local = {a.arg for a in node.args.args} | {n.id for n in ast.walk(node) if isinstance(n, ast.Name) and isinstance(n.ctx, ast.Store)}
-        node = ast.fix_missing_locations(_Inline(consts, local).visit(node))
+        node = ast.fix_missing_locations(_SplitTuples().visit(_Inline(consts, local).visit(node)))
         out.append((Fn if mode == "q" else FnZQ)(node, set(order)).definition() + "\n#[local] Hint Unfold t_%s : kernels." % name)
     return "\n\n".join(out) + "\n"
 
